@@ -7,6 +7,7 @@
 //   digest <s> x: X..   one hash per category of the public query API (const calls only): "o dg <cat>=<hash> ..."
 //   deliver <s> <fn> idx: i..   as in tsgdrv but the indexes are taken modulo the length of the remembered candidate list (duplicates dropped)
 //   sync <dst> <src>    copy the driver's record of delivered points (bookkeeping of the driver, no library call)
+//   digestv <s> x: X..  digest plus the numbers behind the derived categories: "o dv <cat> <n> v.."
 //   cmpstream <a> <b>   "o same 0|1": two named in-memory streams are bytewise equal
 //   write/read/savebytes as in tsgdrv; read ... file uses read(filename) (format auto-detection),
 //   readf <s> ascii|bin <name>   opens <workdir>/<name> itself and calls read(std::ifstream&, binary)
@@ -243,9 +244,10 @@ static std::string hcat(const std::function<void()> &f) {
     catch (std::invalid_argument &) { r = "x:invalid_argument"; } catch (std::runtime_error &) { r = "x:runtime_error"; } catch (std::exception &) { r = "x:other"; }
     dig = old; return r;
 }
-static void dv(const std::vector<double> &v) { size_t n = v.size(); dmix(&n, sizeof n); if (n) dmix(v.data(), n * sizeof(double)); }
+static std::vector<double> dvbuf; static bool dvrec = false;
+static void dv(const std::vector<double> &v) { size_t n = v.size(); dmix(&n, sizeof n); if (n) dmix(v.data(), n * sizeof(double)); if (dvrec) dvbuf.insert(dvbuf.end(), v.begin(), v.end()); }
 static void dvi(const std::vector<int> &v) { size_t n = v.size(); dmix(&n, sizeof n); if (n) dmix(v.data(), n * sizeof(int)); }
-static void digest(Slot &s, const std::vector<double> &x) {
+static void digest(Slot &s, const std::vector<double> &x, bool verbose) {
     const TasmanianSparseGrid &g = s.g; int d = g.getNumDimensions(), outs = g.getNumOutputs(); size_t nx = d ? x.size() / d : 0;
     bool canev = (!g.empty() && outs > 0 && g.getNumLoaded() > 0);
     std::vector<std::pair<std::string, std::string>> c;
@@ -259,21 +261,37 @@ static void digest(Slot &s, const std::vector<double> &x) {
     c.push_back({"pidx", hcat([&]() { if (!g.empty()) { const int *p = g.getPointsIndexes(); dvi(std::vector<int>(p, p + (size_t) d * g.getNumPoints())); } })});
     c.push_back({"values", hcat([&]() { const double *v = g.getLoadedValues(); if (v && outs > 0) dv(std::vector<double>(v, v + (size_t) outs * g.getNumLoaded())); })});
     c.push_back({"coef", hcat([&]() { if (canev) { const double *p = g.getHierarchicalCoefficients(); dv(std::vector<double>(p, p + (size_t) outs * g.getNumLoaded() * (g.isFourier() ? 2 : 1))); } })});
-    c.push_back({"qw", hcat([&]() { if (!g.empty()) dv(g.getQuadratureWeights()); })});
-    c.push_back({"iw", hcat([&]() { if (!g.empty()) for (size_t i = 0; i < nx; i++) dv(g.getInterpolationWeights(std::vector<double>(x.begin() + i * d, x.begin() + (i + 1) * d))); })});
+    bool haspts = (!g.empty() && g.getNumPoints() > 0);   // the weight getters crash on a grid under construction that has no point yet
+    c.push_back({"qw", hcat([&]() { if (haspts) dv(g.getQuadratureWeights()); })});
+    c.push_back({"iw", hcat([&]() { if (haspts) for (size_t i = 0; i < nx; i++) dv(g.getInterpolationWeights(std::vector<double>(x.begin() + i * d, x.begin() + (i + 1) * d))); })});
     c.push_back({"eval", hcat([&]() { if (canev) for (size_t i = 0; i < nx; i++) { std::vector<double> y; g.evaluate(std::vector<double>(x.begin() + i * d, x.begin() + (i + 1) * d), y); dv(y); } })});
     c.push_back({"evalb", hcat([&]() { if (canev && nx > 0) { std::vector<double> y; g.evaluateBatch(x, y); dv(y); } })});
     c.push_back({"integ", hcat([&]() { if (canev) { std::vector<double> q; g.integrate(q); dv(q); } })});
     c.push_back({"diff", hcat([&]() { if (canev && nx > 0) { std::vector<double> j; g.differentiate(std::vector<double>(x.begin(), x.begin() + d), j); dv(j); } })});
     c.push_back({"hbasis", hcat([&]() { if (!g.empty() && nx > 0 && g.getNumPoints() > 0) { std::vector<double> y; g.evaluateHierarchicalFunctions(x, y); dv(y); } })});
     c.push_back({"hsupport", hcat([&]() { if (!g.empty() && g.getNumPoints() > 0) dv(g.getHierarchicalSupport()); })});
-    c.push_back({"poly", hcat([&]() { if (g.isGlobal() || g.isSequence()) dvi(g.getGlobalPolynomialSpace(true)); })});
+    c.push_back({"poly", hcat([&]() { if ((g.isGlobal() || g.isSequence()) && haspts && !g.isUsingConstruction()) dvi(g.getGlobalPolynomialSpace(true)); })});   // crashes on a constructing grid without tensors
     c.push_back({"trans", hcat([&]() { if (g.isSetDomainTransfrom()) { std::vector<double> a, b; g.getDomainTransform(a, b); dv(a); dv(b); } })});
     c.push_back({"conformal", hcat([&]() { if (g.isSetConformalTransformASIN()) dvi(g.getConformalTransformASIN()); })});
     c.push_back({"limits", hcat([&]() { dvi(g.getLevelLimits()); })});
     c.push_back({"bin", hcat([&]() { std::ostringstream os(std::ios::out | std::ios::binary); g.write(os, true); std::string b = os.str(); dmix(b.data(), b.size()); })});
     c.push_back({"ascii", hcat([&]() { std::ostringstream os; g.write(os, false); std::string b = os.str(); dmix(b.data(), b.size()); })});
     printf("o dg"); for (auto &p : c) printf(" %s=%s", p.first.c_str(), p.second.c_str()); printf("\n");
+    if (verbose) { // the numbers behind the derived categories (recomputed from rebuilt caches), for comparisons with a tolerance
+        static const char *derived[] = {"qw", "iw", "eval", "evalb", "integ", "diff", "hbasis", "hsupport"};
+        // recompute category by category with recording switched on
+        std::vector<std::pair<std::string, std::function<void()>>> again = {
+            {"qw", [&]() { if (haspts) dv(g.getQuadratureWeights()); }},
+            {"iw", [&]() { if (haspts) for (size_t i = 0; i < nx; i++) dv(g.getInterpolationWeights(std::vector<double>(x.begin() + i * d, x.begin() + (i + 1) * d))); }},
+            {"eval", [&]() { if (canev) for (size_t i = 0; i < nx; i++) { std::vector<double> y; g.evaluate(std::vector<double>(x.begin() + i * d, x.begin() + (i + 1) * d), y); dv(y); } }},
+            {"evalb", [&]() { if (canev && nx > 0) { std::vector<double> y; g.evaluateBatch(x, y); dv(y); } }},
+            {"integ", [&]() { if (canev) { std::vector<double> q; g.integrate(q); dv(q); } }},
+            {"diff", [&]() { if (canev && nx > 0) { std::vector<double> j; g.differentiate(std::vector<double>(x.begin(), x.begin() + d), j); dv(j); } }},
+            {"hbasis", [&]() { if (!g.empty() && nx > 0 && g.getNumPoints() > 0) { std::vector<double> y; g.evaluateHierarchicalFunctions(x, y); dv(y); } }},
+            {"hsupport", [&]() { if (!g.empty() && g.getNumPoints() > 0) dv(g.getHierarchicalSupport()); }}};
+        (void) derived;
+        for (auto &a : again) { dvbuf.clear(); dvrec = true; std::string h = hcat(a.second); dvrec = false; printf("o dv %s %zu", a.first.c_str(), dvbuf.size()); for (double v : dvbuf) printf(" %a", v); printf("\n"); }
+    }
 }
 
 static void run_line(const std::string &line) {
@@ -355,7 +373,7 @@ static void run_line(const std::string &line) {
     else if (cmd == "savebytes") { // save the binary/ascii image of the grid into a file for external decoding
         Slot &s = S(k.next()); bool bin = (k.next() == "bin"); std::string name = k.next(); std::ofstream f(workdir + "/" + name, std::ios::binary); s.g.write(f, bin); }
     else if (cmd == "dump") { Slot &s = S(k.next()); while (k.more()) { std::string w = k.next(); if (w == "raw") dump_raw(s.g); else if (w == "api") dump_api(s.g); else dump(s, w); } }
-    else if (cmd == "digest") { Slot &s = S(k.next()); auto m = k.keyed(); digest(s, toDbls(m["x:"])); }
+    else if (cmd == "digest" || cmd == "digestv") { Slot &s = S(k.next()); auto m = k.keyed(); digest(s, toDbls(m["x:"]), cmd == "digestv"); }
     else if (cmd == "cmpstream") { std::string a = k.next(), b = k.next(); printf("o same %d\n", (int) (streams.at(a) == streams.at(b))); }
     else if (cmd == "readf") { Slot &s = S(k.next()); bool bin = (k.next() == "bin"); std::string name = workdir + "/" + k.next();
         std::ifstream f; if (bin) f.open(name, std::ios::in | std::ios::binary); else f.open(name); if (!f.good()) throw std::runtime_error("driver: cannot open " + name); s.g.read(f, bin); s.cand.clear(); }
